@@ -144,8 +144,12 @@ Fixpoint aenv_join (E F : aenv) : aenv :=
   end.
 
 (* abstract heap, flow-insensitive: for every allocation site the abstract objects
-   its instances may hold references to (by field), and the parameters whose
-   pre-existing buffer its instances may share (views) *)
+   its instances may hold references to (by field), the parameters whose
+   pre-existing buffer its instances may share (views), and [po]: the abstract objects
+   that a write of the analysed function may have stored INTO an object that existed
+   before the call (only non-empty for functions that do modify their arguments; it
+   keeps the attribution of later writes to parameters sound: after a.append(b),
+   a[0].shape = .. modifies b) *)
 Definition fmap := list (field * aset_t).
 Fixpoint fm_match (m : fmap) (f : field) : aset_t :=
   match m with
@@ -166,17 +170,19 @@ Definition hp_match (h : list (site * fmap)) (s : site) (f : field) : aset_t := 
 Definition hp_look (h : list (site * fmap)) (s : site) (f : field) : aset_t := fm_look (hp_site h s) f.
 Record aheap := mkheap {
   hp : list (site * fmap);
-  bt : list (site * list var) }.
+  bt : list (site * list var);
+  po : aset_t }.
 Fixpoint bt_look (h : list (site * list var)) (s : site) : list var :=
   match h with
   | [] => []
   | (t, v) :: h' => if t =? s then v else bt_look h' s
   end.
-(* what an abstract object may hold: pre-existing objects only hold pre-existing
-   objects as long as nobody writes them *)
+(* what an abstract object may hold: an object that existed before the call and was
+   first reached through parameter q only holds objects reachable from q, and what the
+   function itself has stored into pre-existing objects *)
 Definition hpts (H : aheap) (f : field) (a : aobj) : aset_t :=
   match a with
-  | xI _ => asingle a
+  | xI _ => aunion (asingle a) (po H)
   | xO p => hp_match (hp H) (Pos.pred_N p) f
   | xH => aempty
   end.
@@ -246,7 +252,11 @@ Fixpoint eval_expr (H : aheap) (E : aenv) (e : expr) : option aset_t :=
   end.
 
 Definition store_ok (H : aheap) (f : field) (targets vals : aset_t) : bool :=
-  forallb (fun a => match a with xO p => asubset vals (hp_look (hp H) (Pos.pred_N p) f) | _ => true end)
+  forallb (fun a => match a with
+                     | xO p => asubset vals (hp_look (hp H) (Pos.pred_N p) f)
+                     | xI _ => asubset vals (po H)
+                     | xH => true
+                     end)
           (aelems targets).
 
 Fixpoint bind_params (ps : list (var * string)) (vals : list aset_t) : option aenv :=
@@ -347,12 +357,16 @@ Fixpoint infer_expr (H : aheap) (E : aenv) (e : expr) : aheap * aset_t :=
     let need := aunion (alooks E sh) (aunion (aload H cf (alooks E cp)) (areach_any H (alooks E dp))) in
     let tv := taint H (alooks E vw) in
     (mkheap (if aisempty need then hp H else hp_add (hp H) s 0 need)
-            (match tv with [] => bt H | _ => bt_add (bt H) s tv end), asingle (ASite s))
+            (match tv with [] => bt H | _ => bt_add (bt H) s tv end) (po H), asingle (ASite s))
   end.
 
 Definition infer_store (H : aheap) (f : field) (targets vals : aset_t) : aheap :=
   if aisempty vals then H else
-  fold_left (fun H a => match a with xO p => mkheap (hp_add (hp H) (Pos.pred_N p) f vals) (bt H) | _ => H end)
+  fold_left (fun H a => match a with
+                        | xO p => mkheap (hp_add (hp H) (Pos.pred_N p) f vals) (bt H) (po H)
+                        | xI _ => mkheap (hp H) (bt H) (aunion vals (po H))
+                        | xH => H
+                        end)
             (aelems targets) H.
 
 Fixpoint infer_loop (f : aheap -> aenv -> aheap * aenv) (k : nat) (H : aheap) (E : aenv) : aheap * aenv :=
@@ -392,7 +406,8 @@ Fixpoint infer (p : program) (depth : nat) : stmt -> aheap -> aenv -> aheap * ae
 
 Definition heap_size (H : aheap) : nat :=
   (hp_size (hp H)
-   + fold_right (fun sv n => List.length (snd sv) + n) 0 (bt H) + List.length (bt H))%nat.
+   + fold_right (fun sv n => List.length (snd sv) + n) 0 (bt H) + List.length (bt H)
+   + PositiveSet.cardinal (po H))%nat.
 
 Fixpoint infer_fix (p : program) (depth : nat) (body : stmt) (E0 : aenv) (k : nat) (H : aheap) : aheap :=
   match k with
@@ -410,7 +425,7 @@ Definition entry_env (fd : fundef) : aenv :=
 
 Definition analyse (p : program) (fd : fundef) : option viol :=
   let E0 := entry_env fd in
-  let H := infer_fix p DEPTH (fn_body fd) E0 HEAPFUEL (mkheap [] []) in
+  let H := infer_fix p DEPTH (fn_body fd) E0 HEAPFUEL (mkheap [] [] aempty) in
   match chk p H DEPTH (fn_body fd) E0 with
   | Some (_, v) => Some v
   | None => None
